@@ -87,7 +87,7 @@ static char *ref_splice(const char *text, const char *filepath) {
     char dir[700]; snprintf(dir, sizeof dir, "%s", filepath); { char *sl = strrchr(dir, '/'); if (sl) { if (sl == dir) sl[1] = 0; else *sl = 0; } else snprintf(dir, sizeof dir, "."); }
     while ((strp = strstr(strp, "@INCLUDE ")) != NULL) {
         if (!(strp == str || strp[-1] == '\n')) { strp += 9; continue; }
-        if (++guard > 64) { hm_free(str); return NULL; }
+        if (++guard > 128) { hm_free(str); return NULL; }      /* the library's _MAX_INCLUDES */
         char *e = strp + 9; while (*e != '\n' && *e) e++;
         size_t len = (size_t)(e - (strp + 9));
         if (len >= 4096) { hm_free(str); return NULL; }
@@ -100,9 +100,10 @@ static char *ref_splice(const char *text, const char *filepath) {
         size_t cap = 1 << 16, n = 0; char *inc = hm_alloc(cap + 1); size_t r;
         while ((r = fread(inc + n, 1, cap - n, f)) > 0) { n += r; if (n == cap) { cap *= 2; inc = vf_xrealloc(inc, cap + 1); } }
         fclose(f); inc[n] = 0;
-        char *tok = hm_alloc(len + 10); memcpy(tok, strp, 9 + len); tok[9 + len] = 0;
-        char *ns = replace_all(str, tok, inc);
-        hm_free(tok); hm_free(inc); hm_free(str); str = ns; strp = str;
+        /* this directive only (the library replaced every occurrence of the directive text until fix "qconfig_parse_file: splice ... only") */
+        size_t head = (size_t)(strp - str), tail = strlen(strp + 9 + len);
+        char *ns = hm_alloc(head + n + tail + 1); memcpy(ns, str, head); memcpy(ns + head, inc, n); memcpy(ns + head + n, strp + 9 + len, tail + 1);
+        hm_free(inc); hm_free(str); str = ns; strp = str + head;
         if (strlen(str) > (1u << 22)) { hm_free(str); return NULL; }
     }
     return str;
